@@ -193,7 +193,7 @@ func shortHash(s string) string {
 }
 
 func (r *checkRun) writeReplayJSON(name string, rec map[string]any) string {
-	dir := filepath.Join("/verif/evidence/replay", r.id)
+	dir := filepath.Join(replayRoot, r.id)
 	os.MkdirAll(dir, 0o755)
 	p := filepath.Join(dir, sanitize(name)+".json")
 	data, _ := json.MarshalIndent(rec, "", " ")
